@@ -148,6 +148,8 @@ def member(n, orbit_gid, rng, signs="random", mix=True, local=True):
     if mix == "light":      # one or two products of generators (e.g. a generator of one tensor factor multiplied onto another's), reordered
         gens = random_basis_change(gens, rng, steps=rng.choice([1, 2, 2, 3]))
         rng.shuffle(gens)
+    elif mix == "uniform":  # close to a uniformly random invertible combination of the generators (10 n row operations)
+        gens = random_basis_change(gens, rng, steps=10 * n)
     elif mix == "heavy":    # the heaviest group elements as generators (all of full weight where the group allows it)
         gens = extreme_weight_basis(gens, n, rng, heavy=True)
     elif mix:
